@@ -256,6 +256,8 @@ def canon(root):
             return ("ext", v.path)
         if isinstance(v, (FuncV, BuiltinV)):
             return repr(v)
+        if type(v).__name__ == "IterV":
+            return ("iter", v.kind, v.consumed, c(v.source))
         if isinstance(v, PartialV):
             return ("partial", c(v.func), tuple(c(x) for x in v.args), tuple((k, c(x)) for k, x in sorted(v.kwargs.items())))
         if isinstance(v, BoundMethod):
